@@ -57,6 +57,13 @@ class RuleView(object):
     def broke(self, msg):
         self.rep.broke(msg)
 
+    def note(self, msg):
+        if hasattr(self.rep, 'note'):
+            self.rep.note(msg)
+
+    def rule(self, *a, **k):
+        pass
+
 
 def run(tier):
     rep = Report('C07', tier)
